@@ -293,7 +293,7 @@ func pairJob(raw json.RawMessage) (any, error) {
 
 // c17ExoticTokens: parameter spellings the parser accepts besides the plain ones (empty rule, braces inside a rule,
 // '-' flag), and literal text in which two patterns share the first bytes of a multi-byte character.
-var c17ExoticTokens = []string{"a", "/", "/\u4e2d", "/\u4e3d", "\u4e2d", "\u4e3d", "{a}", "{b}", "{-a}", "{a:}", "{b:}", "{-b:}", "{a:\\d+}", "{b:\\d+}", "{a:a{}}", "{a:a{x}}", "{b:a{}}", "{a:x}", "{a:[}]}"}
+var c17ExoticTokens = []string{"a", "/", "/\u4e2d", "/\u4e3d", "\u4e2d", "\u4e3d", "{a}", "{b}", "{-a}", "{a:}", "{b:}", "{-b:}", "{a:\\d+}", "{b:\\d+}", "{a:a{}}", "{a:a{x}}", "{a:a{y}}", "{b:a{}}", "{a:x}", "{a:[}]}"}
 
 func c17ExoticPool() []string {
 	var ps []string
@@ -306,9 +306,10 @@ func c17ExoticPool() []string {
 	return ps
 }
 
-var c17ExoticProbes = []string{"/", "/1", "/a", "/x", "/1a", "/a1", "/1/\u4e2d", "/1/\u4e3d", "/\u4e2d", "/\u4e3d", "/a{}", "/a{x}", "/ax", "/1/", "/a/", "/}", "/1\u4e2d", "/a\u4e2d"}
+var c17ExoticProbes = []string{"/", "/1", "/a", "/x", "/1a", "/a1", "/1/\u4e2d", "/1/\u4e3d", "/\u4e2d", "/\u4e3d", "/a{}", "/a{x}", "/a{y}", "/{a:a1}", "/{a:a", "/ax", "/1/", "/a/", "/}", "/1\u4e2d", "/a\u4e2d"}
 
 type exoticItem struct {
+	Prop  string   `json:"prop,omitempty"` // "" = C17 (rejected calls); "C03" = the frame law for accepted calls
 	IC    string   `json:"ic"`
 	First string   `json:"first"`
 	Only  string   `json:"only,omitempty"` // replay: only this second pattern
@@ -339,7 +340,10 @@ func exoticJob(raw json.RawMessage) (any, error) {
 		out.Pairs++
 		rep := func(clause, class, obs, exp string) {
 			out.Viols = append(out.Viols, explore.Violation{Property: "C17", Clause: clause, Class: class, Config: cfg.String(), History: []string{fmt.Sprintf("Handle(%q,[GET])", it.First)}, Probe: fmt.Sprintf("Handle(%q,[POST])", second), Observed: obs, Expected: exp,
-				Replay: explore.ItemReplay("c17/exotic", exoticItem{IC: it.IC, First: it.First, Only: second})})
+				Replay: explore.ItemReplay("c17/exotic", exoticItem{Prop: it.Prop, IC: it.IC, First: it.First, Only: second})})
+			if it.Prop == "C03" {
+				out.Viols[len(out.Viols)-1].Property = "C03"
+			}
 		}
 		// what the model says, where it has an opinion: both spellings are within the documented syntax
 		verdict, why := ref.Either, ""
@@ -352,9 +356,32 @@ func exoticJob(raw json.RawMessage) (any, error) {
 			} // else: same route up to names but spelt differently ({a} / {a:}): the property does not say
 		}
 		outc[fmt.Sprintf("exotic/%v/%v", verdict, paniced)] = struct{}{}
+		if it.Prop == "C03" && paniced {
+			continue
+		}
 		if !paniced {
-			if verdict == ref.Reject {
-				rep("C17.rejected", "accepted:"+why, "Handle returned normally", "rejected: identical up to parameter names to the only other route")
+			if it.Prop != "C03" {
+				if verdict == ref.Reject {
+					rep("C17.rejected", "accepted:"+why, "Handle returned normally", "rejected: identical up to parameter names to the only other route")
+				}
+				continue
+			}
+			// an accepted registration adds a route; it takes nothing away from the first one and does not change what
+			// the first pattern answers: a path served before is still served, and the first pattern serves no path it
+			// did not serve alone (GET only: the second route is registered for POST)
+			after := c17Vector(r, c17ExoticProbes)
+			for i := 1; i < len(before)-1; i++ {
+				if !strings.HasPrefix(before[i], "GET ") {
+					continue
+				}
+				served := func(s string) bool { return !strings.Contains(s, "st=404") }
+				byFirst := func(s string) bool { return strings.Contains(s, fmt.Sprintf("pat=%q", it.First)) }
+				switch {
+				case served(before[i]) && !served(after[i]):
+					rep("C03.frame", "route-lost-by-other-registration", "before: "+before[i]+" ; after: "+after[i], "still served: registering "+second+" for POST adds a route")
+				case !served(before[i]) && served(after[i]) && byFirst(after[i]) && second != it.First:
+					rep("C03.frame", "first-route-answers-new-path", "before: "+before[i]+" ; after: "+after[i], "unchanged: "+it.First+" did not answer this path alone")
+				}
 			}
 			continue
 		}
